@@ -15,7 +15,7 @@ def run(repo: Repo, chk: Check):
     chk.rule("R17.c", "every register written into the allocation map is added to the scope's used set on the same path, "
                       "the returned set is the union over all scopes, and num_registers is its size", floor=4)
     g = repo.mod("generate_code")
-    fn = g.func("CompilerPassGatherCode.get_code")
+    fn = g.anchor("CompilerPassGatherCode.get_code")
     chk.saw("generate_code", "CompilerPassGatherCode.get_code")
     cfg = CFG(fn)
     rd = ReachingDefs(cfg)
